@@ -8,15 +8,16 @@ ID = 'C06'
 LEVEL = 'fault_enumeration'
 INJECT = True
 RULE = ('case = (persistent worker class, 0-5 items of which one may be a poison item that makes the target raise, close or not, ending {graceful terminate at the '
-        'n-th traced line of the child loop, SIGKILL/SIGTERM at the n-th line (process/remote), own end, SIGKILL of the remote child while the parent-side forwarding thread is held at its m-th traced line}, results pipe {default, caller-supplied Pipe() as the '
-        'Pool does}). Oracle: the values read after death are exactly E[:k] of the expected sequence; next_result() then raises queue.Empty and results_iter() '
+        'n-th traced line of the child loop, SIGKILL/SIGTERM at the n-th line (process/remote), own end, forced terminate of a child stuck in an item while swallowing the termination exception, SIGKILL of the remote child while the parent-side forwarding thread is held at its m-th traced line}, results pipe {default, caller-supplied Pipe() as the '
+        'Pool does}, consumer {reads after death, already iterating results_iter() (and hence blocked in next_result()) when the end comes}). Oracle: the values read after death are exactly E[:k] of the expected sequence; next_result() then raises queue.Empty and results_iter() '
         'stops (blocking is the violation); on a supplied pipe a multiplexing reader gets an end marker or EOF and the raw counters are 1..k; a worker that ended '
         'by its own choice delivered all of E. Non-trivial = landing confirmed and >=1 item enqueued; distinct = distinct (kind, items, close, pipe, ending, n).')
 ASSUMPTIONS = ['line-level landing points in the work thread of the child; the parent-side forwarding thread of the remote kind is paused at a generated line while the child is SIGKILLed',
                'expected sequence E = target applied to the items up to the first poison item']
 SHRINK = 'none'
 TIME_BUDGET = {'quick': 170, 'thorough': 1700}
-REQUIRED = {'quick': {'landed_with_items': 150, 'land:_send_result': 10, 'land:_cleanup': 5, 'pipe:supplied': 100, 'mode:kill': 40, 'land:forwarding_thread': 60, 'unpicklable_partial_result': 40},
+REQUIRED = {'quick': {'landed_with_items': 150, 'land:_send_result': 10, 'land:_cleanup': 5, 'pipe:supplied': 100, 'mode:kill': 40, 'land:forwarding_thread': 60, 'unpicklable_partial_result': 40,
+                      'forced_terminate_of_stuck_child': 40, 'consumer_blocked_before_death': 100},
             'thorough': {'landed_with_items': 1500, 'land:_send_result': 100, 'land:_cleanup': 50}}
 
 
@@ -40,13 +41,19 @@ def strategy(tier):
         'kind': st.just('p_remote'), 'scenario': st.just('persist'),
         'items': st.builds(lambda a, b: a + ['UNPICKLABLE'] + b, st.lists(st.sampled_from([1, 2]), max_size=2), st.lists(st.sampled_from([3, 4]), max_size=2)),
         'close': st.booleans(), 'pipe': st.sampled_from(['default', 'supplied']), 'inject': st.just({'mode': 'unpicklable_partial_result'})})
-    return st.one_of(_child_strategy(), _child_strategy(), _child_strategy(), fwd, unp)
+    # a child that never answers its k-th item and swallows the termination exception: only the forced part of terminate() ends it
+    forced = st.fixed_dictionaries({
+        'kind': st.sampled_from(['p_process', 'p_remote', 'p_remote']), 'scenario': st.just('persist'),
+        'items': st.builds(lambda a, b: a + ['STUCK'] + b, st.lists(st.sampled_from([1, 2, ['T', 5]]), max_size=3), st.lists(st.sampled_from([3, 4]), max_size=1)),
+        'close': st.booleans(), 'pipe': st.sampled_from(['default', 'supplied']), 'consumer': st.sampled_from(['late', 'early']),
+        'inject': st.just({'mode': 'forced_terminate_of_stuck_child'}), 'term_timeout': st.sampled_from([0, 0.3])})
+    return st.one_of(_child_strategy(), _child_strategy(), _child_strategy(), fwd, unp, forced)
 
 
 def _child_strategy():
     return st.fixed_dictionaries({
         'kind': st.sampled_from(IC.PERSISTENT), 'scenario': st.just('persist'), 'items': _items, 'close': st.booleans(),
-        'pipe': st.sampled_from(['default', 'supplied']),
+        'pipe': st.sampled_from(['default', 'supplied']), 'consumer': st.sampled_from(['late', 'early']),
         'inject': st.one_of(
             st.fixed_dictionaries({'mode': st.just('terminate'), 'n_raw': st.integers(0, 900)}),
             st.fixed_dictionaries({'mode': st.just('terminate'), 'n_raw': st.integers(0, 900)}),
@@ -96,6 +103,11 @@ def run_case(case, ctx):
         c['inject'] = {'mode': 'terminate_now'}
         c['settle'] = 0.4
         out.label('unpicklable_partial_result')
+    elif mode == 'forced_terminate_of_stuck_child':
+        c['inject'] = {'mode': 'terminate_now'}
+        c['settle'] = 0.4
+        c['term'] = {'timeout': case.get('term_timeout', 0.3), 'force': True}
+        out.label('forced_terminate_of_stuck_child')
     elif mode == 'none':
         c['close'] = True     # own end: close and wait
     if mode in ('terminate', 'kill'):
@@ -128,6 +140,10 @@ def run_case(case, ctx):
     else:
         site = (mode + '@' + IC.region_of(reached)) if mode != 'none' else 'own_end:' + kind
     out.label('kind:' + kind, 'mode:' + mode, 'pipe:' + case['pipe'])
+    early = case.get('consumer') == 'early' and case['pipe'] == 'default'
+    if early:
+        out.label('consumer_blocked_before_death')
+        site += ':consumer_reading_before_death'
     items = case['items']
     if reached and items:
         out.label('landed_with_items')
@@ -136,8 +152,8 @@ def run_case(case, ctx):
                 out.label('land:' + fn)
         if 'handler' in IC.region_of(reached):
             out.label('land:handler')
-    out.nontrivial = mode == 'unpicklable_partial_result' or bool(reached and items) or (mode == 'none' and bool(items)) or (mode == 'front_pause' and bool(obs.get('front_reached')))
-    out.key = {'kind': kind, 'items': items, 'close': c.get('close'), 'pipe': case['pipe'], 'mode': mode, 'n': inj.get('n'), 'sig': inj.get('sig')}
+    out.nontrivial = mode in ('unpicklable_partial_result', 'forced_terminate_of_stuck_child') or bool(reached and items) or (mode == 'none' and bool(items)) or (mode == 'front_pause' and bool(obs.get('front_reached')))
+    out.key = {'kind': kind, 'items': items, 'close': c.get('close'), 'pipe': case['pipe'], 'mode': mode, 'n': inj.get('n'), 'sig': inj.get('sig'), 'consumer': 'early' if early else 'late'}
     if not obs['dead']:
         out.label('not_dead')
         out.obs = {'site': site, 'dead': False}
